@@ -74,8 +74,10 @@ pub fn reverse_bits_u64(operand: u64, bit_count: usize) -> u64 {
 }
 
 pub fn are_close_f64(value1: f64, value2: f64) -> bool {
-    let scale_factor = value1.max(value2).max(1.0);
-    (value1 - value2).abs() < f64::EPSILON * scale_factor
+    // Relative comparison at every magnitude: a floor of 1.0 on the reference magnitude turns the
+    // test into an absolute tolerance of 2^-52 below 1, under which any two small scales "agree".
+    let scale_factor = value1.abs().max(value2.abs());
+    value1 == value2 || (value1 - value2).abs() < f64::EPSILON * scale_factor
 }
 
 #[inline]
